@@ -85,9 +85,17 @@ func randFrom(r *rand.Rand, alpha string, n int) string {
 }
 
 var pathPool = []string{"/", "/p", "/a/b.php", "/a/b/", "/a\\b", "/a%20b", "/\xc3\xbc", "/a/../b", "/index.php/extra", "/a.b/c-d_e~f"}
-var ctPool = []string{"application/x-www-form-urlencoded", "APPLICATION/X-WWW-FORM-URLENCODED", "application/x-www-form-urlencoded; charset=UTF-8",
-	"multipart/form-data; boundary=xyz", "Multipart/Form-Data", "multipart/form-datax", "text/plain", "application/json", "text/xml",
-	" application/x-www-form-urlencoded", ""}
+// content types AddRequestHeader takes for a urlencoded body (round-trip oracle applies) ...
+var ctAccepted = []string{"application/x-www-form-urlencoded", "APPLICATION/X-WWW-FORM-URLENCODED",
+	"application/x-www-form-urlencoded; charset=UTF-8", "Application/X-Www-Form-Urlencoded;charset=utf-8",
+	"application/x-www-form-urlencoded;", "application/x-www-form-urlencoded;;x", "application/x-www-form-urlencoded; a=\"b;c\""}
+
+// ... and everything else (model correspondence only; the forms with white space around the media
+// type still select no processor - reported as a residual)
+var ctPool = append(append([]string{}, ctAccepted...),
+	"application/x-www-form-urlencoded ;charset=UTF-8", "application/x-www-form-urlencoded ", "application/x-www-form-urlencoded\t",
+	" application/x-www-form-urlencoded", "application/x-www-form-urlencodedx", "application/x-www-form-urlencoded,x",
+	"multipart/form-data; boundary=xyz", "Multipart/Form-Data", "multipart/form-datax", "text/plain", "application/json", "text/xml", "")
 var ctlPool = []string{"", "", "JSON", "json", "XML", "URLENCODED", "RAW", "MULTIPART", "FOO"}
 
 func cookieSafe(p pair) bool {
@@ -192,7 +200,7 @@ func (rn *runner) generate() error {
 
 	// 1. ParseQuery directly: exhaustive over the metacharacters of the decoder
 	enumerate("a%+=&4z", cfg.Pick(4, 5), func(s string) { _ = run(&caseJSON{Kind: "parsequery", QHex: hx(s)}) })
-	for i := 0; i < cfg.Pick(300, 6000); i++ {
+	for i := 0; i < cfg.Pick(250, 2000); i++ {
 		c := &caseJSON{Kind: "parsequery", QHex: hx(randFrom(r, "aA%+=&;4fFgz \x00\xff", 5+r.Intn(16)))}
 		if r.Intn(4) == 0 {
 			c.Sep = ';'
@@ -206,12 +214,12 @@ func (rn *runner) generate() error {
 		_ = run(&caseJSON{Kind: "parsequery", QHex: hx(string([]byte{byte(b)}) + "=" + string([]byte{byte(b)}))})
 	}
 	// 2. ParseCookies directly
-	enumerate("a=; \tb", cfg.Pick(4, 6), func(s string) { _ = run(&caseJSON{Kind: "parsecookies", QHex: hx(s)}) })
-	for i := 0; i < cfg.Pick(300, 6000); i++ {
+	enumerate("a=; \tb", cfg.Pick(4, 5), func(s string) { _ = run(&caseJSON{Kind: "parsecookies", QHex: hx(s)}) })
+	for i := 0; i < cfg.Pick(250, 2000); i++ {
 		_ = run(&caseJSON{Kind: "parsecookies", QHex: hx(randFrom(r, "aAb=; \t\r\n%+\"", 4+r.Intn(20)))})
 	}
 	// 3. encoder cross-check
-	for i := 0; i < cfg.Pick(150, 3000); i++ {
+	for i := 0; i < cfg.Pick(150, 1500); i++ {
 		_ = run(&caseJSON{Kind: "enc", Pairs: pairsHex(genPairs(r, false))})
 	}
 	for b := 0; b < 256; b++ {
@@ -220,7 +228,7 @@ func (rn *runner) generate() error {
 
 	// 4. ProcessURI
 	// 4a. round trip of pair lists through the query string, argument limits around n
-	for i := 0; i < cfg.Pick(450, 20000); i++ {
+	for i := 0; i < cfg.Pick(400, 2500); i++ {
 		limited := r.Intn(2) == 0
 		l := genPairs(r, limited)
 		c := &caseJSON{Kind: "uri", Via: "query", Orig: pairsHex(l)}
@@ -259,7 +267,7 @@ func (rn *runner) generate() error {
 	}
 	// 4b. raw URIs: exhaustive small scope over the URI metacharacters
 	enumerate("/?#=&a%\\.", cfg.Pick(3, 4), func(s string) { _ = run(&caseJSON{Kind: "uri", URIHex: hx(s)}) })
-	for i := 0; i < cfg.Pick(200, 6000); i++ {
+	for i := 0; i < cfg.Pick(200, 1000); i++ {
 		c := &caseJSON{Kind: "uri", URIHex: hx(randFrom(r, "/?#=&aA%4z+\\.: *", 1+r.Intn(14)))}
 		if r.Intn(3) == 0 {
 			c.URIHex = hx("/" + randFrom(r, "/?#=&aA%4z+\\.;", r.Intn(14)))
@@ -277,7 +285,7 @@ func (rn *runner) generate() error {
 	}
 
 	// 5. headers and cookies
-	for i := 0; i < cfg.Pick(250, 6000); i++ {
+	for i := 0; i < cfg.Pick(250, 1000); i++ {
 		l := genPairs(r, false)
 		if r.Intn(3) == 0 {
 			l = append(l, pair{[]string{"Content-Type", "content-type", "CONTENT-TYPE"}[r.Intn(3)], ctPool[r.Intn(len(ctPool))]})
@@ -290,7 +298,7 @@ func (rn *runner) generate() error {
 			return err
 		}
 	}
-	for i := 0; i < cfg.Pick(250, 6000); i++ {
+	for i := 0; i < cfg.Pick(250, 1000); i++ {
 		var l []pair
 		for _, p := range genPairs(r, false) {
 			if cookieSafe(p) {
@@ -317,14 +325,14 @@ func (rn *runner) generate() error {
 
 	// 6. request bodies
 	// 6a. round trip through a urlencoded body
-	for i := 0; i < cfg.Pick(250, 10000); i++ {
+	for i := 0; i < cfg.Pick(250, 1200); i++ {
 		l := genPairs(r, false)
 		body := encQueryCanon(l)
 		if r.Intn(2) == 0 {
 			body = encQueryRand(r, l, rawOKBody)
 		}
 		c := &caseJSON{Kind: "body", Via: "urlencoded", Orig: pairsHex(l), Access: true, BodyHex: hx(body),
-			Pairs: pairsHex([]pair{{"Content-Type", ctPool[r.Intn(2)]}})}
+			Pairs: pairsHex([]pair{{[]string{"Content-Type", "content-type", "CONTENT-TYPE"}[r.Intn(3)], ctAccepted[r.Intn(len(ctAccepted))]}})}
 		if body == "" {
 			c.Via = ""
 		}
@@ -334,7 +342,7 @@ func (rn *runner) generate() error {
 	}
 	// 6b. processor selection matrix
 	bodies := []string{"a=1&A=2&a=3", "{\"a\":1}", "{\"a\":", "<r a=\"1\">t</r>", "<r><unclosed></r>", "", "\x00\xff&=%", "x", "[1,2", "nul"}
-	for i := 0; i < cfg.Pick(350, 10000); i++ {
+	for i := 0; i < cfg.Pick(350, 1200); i++ {
 		c := &caseJSON{Kind: "body", Access: r.Intn(5) != 0, Force: r.Intn(3) == 0, Ctl: ctlPool[r.Intn(len(ctlPool))],
 			BodyHex: hx(bodies[r.Intn(len(bodies))])}
 		var hs []pair
@@ -352,7 +360,7 @@ func (rn *runner) generate() error {
 		}
 	}
 	// 6c. JSON trees (ctl:requestBodyProcessor=JSON), depth limits
-	for i := 0; i < cfg.Pick(450, 20000); i++ {
+	for i := 0; i < cfg.Pick(400, 2500); i++ {
 		t := genTree(r, 3)
 		if r.Intn(4) == 0 { // an object of strings built from a pair list
 			l := genPairs(r, true)
@@ -390,7 +398,7 @@ func (rn *runner) generate() error {
 		}
 		return string(b)
 	}
-	for i := 0; i < cfg.Pick(150, 3000); i++ {
+	for i := 0; i < cfg.Pick(150, 1500); i++ {
 		var fields []pair
 		for j, n := 0, r.Intn(5); j < n; j++ {
 			name := mpName()
@@ -412,7 +420,7 @@ func (rn *runner) generate() error {
 		}
 	}
 	xmlVals := []string{"v", "a b", "1<2", "x&y", "\"q\"", "\xc3\xbc", "a'b", "%41", "+", "a>b", "t1"}
-	for i := 0; i < cfg.Pick(150, 3000); i++ {
+	for i := 0; i < cfg.Pick(150, 1500); i++ {
 		var els []pair
 		for j, n := 0, r.Intn(5); j < n; j++ {
 			els = append(els, pair{xmlVals[r.Intn(len(xmlVals))], xmlVals[r.Intn(len(xmlVals))]})
